@@ -514,6 +514,7 @@ theorem MovesInv_applyOp {st st' : Store} (inv : MovesInv st) (o : StoreOp) (h :
   | commit t => exact MovesInv_applyTx inv t h
   | lock keys => simp only [applyOp] at h; cases h; exact ⟨inv.pcev, inv.seqs⟩
   | markReverted id a => simp only [applyOp] at h; cases h; exact ⟨inv.pcev, inv.seqs⟩
+  | saveAccountMeta a at_ md => simp only [applyOp] at h; cases h; exact ⟨inv.pcev, inv.seqs⟩
 
 theorem MovesInv_runOpsFrom (ops : List StoreOp) {st st' : Store} (inv : MovesInv st)
     (h : runOpsFrom st ops = .ok st') : MovesInv st' := by
